@@ -79,9 +79,37 @@ class Checker:
         m, f, l = self._site(where, node)
         self.obs.append(Ob(rule, HOLDS, m, f, l, what, "", facts, evaluations))
 
-    def violation(self, rule: str, where, node, what: str, construct: str, evaluations: int = 1, **facts: Any) -> None:
+    def violation(self, rule: str, where, node, what: str, construct: str, evaluations: int = 1, positive: bool = False, **facts: Any) -> None:
+        """``positive``: the verdict names a construct that *is there* (a wrong operand, a forbidden call ...), as opposed to one that
+        rests on not finding the expected construct.  The latter kind is withheld for functions that no longer resemble the audited
+        ones (pyoakverif/shape.py): not recognising a rewritten function is not evidence against it."""
         m, f, l = self._site(where, node)
+        if not positive and not os.environ.get("PYOAK_VERIF_NO_SHAPE_GATE"):
+            from . import shape
+            fn_ = self._func_of(where)
+            if fn_ is not None:
+                gone, sim, delta = shape.rewritten(fn_.key, fn_.raw or fn_.node)
+                if gone:
+                    self.obs.append(Ob(rule, INCOMPLETE, m, f, l, f"verdict withheld ({construct[:160]}): {fn_.qualname} was rewritten (similarity "
+                                       f"{sim if sim is not None else 'n/a: not on the audited tree'} to the audited shape, {delta} shape lines changed); "
+                                       "the rule's reading of it is not reliable enough to report what it did not find", dict(facts, shape_similarity=sim)))
+                    return
+                facts = dict(facts, shape_similarity=sim)
         self.obs.append(Ob(rule, VIOLATION, m, f, l, what, construct, facts, evaluations))
+
+    def _func_of(self, where) -> Func | None:
+        if isinstance(where, Func):
+            return where
+        if isinstance(where, tuple) and len(where) == 2:
+            for mod in self.repo.mods.values():
+                if mod.rel == where[0]:
+                    q = where[1]
+                    try:
+                        if self.repo.has_func(mod.name, q):
+                            return self.repo.func(mod.name, q)
+                    except Exception:
+                        return None
+        return None
 
     def incomplete(self, rule: str, where, node, what: str, **facts: Any) -> None:
         m, f, l = self._site(where, node)
